@@ -87,7 +87,8 @@ theorem AInv.no_deadlock {a : AG} (h : AInv a) (hb : ∀ i, i < a.n → BlockedP
     · exact hkj h1
 
 /-- the invariant along every schedule; a schedule never ends in a protocol panic site -/
-theorem inv_runSched (U : Upd σ N C) (cfg : Cfg) (db : List (DbN N)) (hs : cfg.staleHigh = false) :
+theorem inv_runSched (U : Upd σ N C) (cfg : Cfg) (db : List (DbN N)) (hs : cfg.staleHigh = false)
+    (hm : cfg.highMax = false) :
     ∀ (s : List Nat) (g : G σ N C), AInv (absG g) →
       match runSched U cfg db s g with
       | .inr g' => AInv (absG g')
@@ -97,14 +98,14 @@ theorem inv_runSched (U : Upd σ N C) (cfg : Cfg) (db : List (DbN N)) (hs : cfg.
     unfold runSched
     by_cases hi : i < g.n
     · rw [if_pos hi]
-      have := step_ok U cfg db g i hi h hs
+      have := step_ok U cfg db g i hi h hs hm
       cases hst : step U cfg db g i with
       | ok g' =>
         rw [hst] at this
-        exact inv_runSched U cfg db hs s g' (ATrans.inv h this)
-      | blocked => exact inv_runSched U cfg db hs s g h
+        exact inv_runSched U cfg db hs hm s g' (ATrans.inv h this)
+      | blocked => exact inv_runSched U cfg db hs hm s g h
       | panic site => rw [hst] at this; exact this
-    · rw [if_neg hi]; exact inv_runSched U cfg db hs s g h
+    · rw [if_neg hi]; exact inv_runSched U cfg db hs hm s g h
 
 theorem allDone_iff (g : G σ N C) : allDone g = true ↔ ∀ i, i < g.n → ((absG g).pv i).kind = .done := by
   simp only [allDone, List.all_eq_true, List.mem_range, beq_iff_eq, absG, view]
@@ -114,7 +115,8 @@ theorem allDone_iff (g : G σ N C) : allDone g = true ↔ ∀ i, i < g.n → ((a
 
 /-- progress: under the invariant, unless every worker has returned, some worker's step is not `blocked` — it is a move
 that keeps the invariant, or a panic of the updater / tracker -/
-theorem progress (U : Upd σ N C) (cfg : Cfg) (db : List (DbN N)) (hs : cfg.staleHigh = false) (g : G σ N C)
+theorem progress (U : Upd σ N C) (cfg : Cfg) (db : List (DbN N)) (hs : cfg.staleHigh = false)
+    (hm : cfg.highMax = false) (g : G σ N C)
     (h : AInv (absG g)) (hnd : allDone g = false) :
     ∃ i, i < g.n ∧ ((∃ g', step U cfg db g i = .ok g' ∧ AInv (absG g')) ∨
       ∃ site, step U cfg db g i = .panic site ∧ site ∈ updSites) := by
@@ -122,7 +124,7 @@ theorem progress (U : Upd σ N C) (cfg : Cfg) (db : List (DbN N)) (hs : cfg.stal
   intro hcon
   have hb : ∀ i, i < g.n → BlockedP (absG g) i := by
     intro i hi
-    have := step_ok U cfg db g i hi h hs
+    have := step_ok U cfg db g i hi h hs hm
     cases hst : step U cfg db g i with
     | ok g' => rw [hst] at this; exact absurd ⟨i, hi, Or.inl ⟨g', hst, ATrans.inv h this⟩⟩ hcon
     | blocked => rw [hst] at this; exact this
